@@ -352,8 +352,7 @@ def run(tier, seed):
         chk.violation(f"thread {tid}: call {key} gave another outcome than single-threaded", f"thread-interference {key.split('/')[0]}", {"call": key, "threaded": out, "single": ref, "arg_violations": viol})
     if R:
         R.close()
-    fw.env_invariance(chk, "auth")          # the same seeded cases under -O / -OO, warnings-as-errors, other TZ / locale, a private CA bundle
-    fw.env_invariance(chk, "reg")          # the same seeded cases under -O / -OO, warnings-as-errors, other TZ / locale, a private CA bundle
+    fw.env_invariance(chk, "auth", "reg")          # the same seeded cases under -O / -OO, warnings-as-errors, other TZ / locale, a private CA bundle
     return fw.finish(chk, ob, br, TRUSTED,
                      ["outcome = result fields or exception class bucket; option-generation outcomes are compared through options_to_json with caller-supplied challenge / user id (no randomness)"],
                      RULE, "coqc -Q . PW Properties/C18.v; thorough: coqchk -o")
